@@ -132,6 +132,7 @@ type Kernel struct {
 	stubs        map[string]StubFactory
 	udpSt        *udpState
 	lastUnlock   map[string]int
+	watch        map[string][]int // lock-site substring -> steps at which such a lock was granted
 	unlockSeq    uint64
 	fsTrace      []string
 	udpBusyPorts map[int]bool
@@ -493,6 +494,25 @@ func (k *Kernel) parkUDPWrite(s *UDPSock) {
 }
 
 // goroutineBusy reports whether a goroutine with this name waits for or holds a cooperative mutex.
+// WatchGrants records, from now on, the steps at which a lock whose acquisition site contains sub is granted
+// (oracles use it to learn when lal entered a particular function); GrantSteps returns them.
+func (k *Kernel) WatchGrants(sub string) {
+	k.mu.Lock()
+	if k.watch == nil {
+		k.watch = map[string][]int{}
+	}
+	if _, ok := k.watch[sub]; !ok {
+		k.watch[sub] = nil
+	}
+	k.mu.Unlock()
+}
+
+func (k *Kernel) GrantSteps(sub string) []int {
+	k.mu.Lock()
+	defer k.mu.Unlock()
+	return append([]int(nil), k.watch[sub]...)
+}
+
 // LastUnlockStep is the step at which a goroutine of that name last released a woven mutex (-1: never).
 func (k *Kernel) LastUnlockStep(name string) int {
 	k.mu.Lock()
@@ -777,6 +797,11 @@ func (k *Kernel) apply(a action) {
 	case "grant":
 		k.mu.Lock()
 		r := a.req
+		for sub := range k.watch {
+			if strings.Contains(r.site, sub) {
+				k.watch[sub] = append(k.watch[sub], k.step)
+			}
+		}
 		for i, x := range k.lockReqs {
 			if x == r {
 				k.lockReqs = append(k.lockReqs[:i], k.lockReqs[i+1:]...)
